@@ -12,6 +12,7 @@ import (
 	"github.com/jirenius/go-res/store"
 	"github.com/jirenius/go-res/store/mockstore"
 
+	altprops "verif/harness/internal/alt/props"
 	"verif/harness/internal/core"
 	"verif/harness/internal/mon"
 	"verif/harness/internal/sched"
@@ -154,7 +155,10 @@ func c11Exec(k storeKind, rt store.ReadTxn, wt store.WriteTxn, op stOp) stRes {
 	case "create", "update":
 		var v interface{} = mkValue(k.Typed, op.UID, "", op.Veto)
 		if op.Wrong {
-			if k.Typed {
+			if k.Typed && core.Hash64(op.UID)%2 == 0 {
+				// a different type with the same printed name ("props.tItem")
+				v = altprops.ForeignItem(op.UID)
+			} else if k.Typed {
 				v = map[string]interface{}{"u": op.UID}
 			} else {
 				v = tItem{U: op.UID}
